@@ -1,5 +1,6 @@
 import PytypeModel.Merge.MergePyi
 import PytypeModel.Proofs.MergeMain
+import PytypeModel.Proofs.MergeEntry
 
 /-! # C20 — merging a stub into source changes annotations only
 
@@ -233,5 +234,114 @@ example : (match merge [.classDef "A" [] [] [.other "pass"]]
 example : (match merge [.funcDef "f" [] [] none [.other "ret"]]
       [.funcDef "f" [] [] (some (.dotted "A" "B")) []] with
     | .ok m => m.imports | .error _ => []) = [("A", "B")] := by decide
+
+/-! ## the file-based entry points (`merge_files_src`, `merge_files`, `main.py`; model: `Merge/Entry.lean`)
+
+`mg` is `merge_sources` (any function: these theorems are about the layer around it). -/
+section entry
+open PytypeModel.Merge.Entry
+
+/-- What is printed or written is the result of `merge_sources` on the program's text and the stub, **whatever the
+mode and the backup extension are**: print mode prints it and leaves the files alone, diff mode leaves the files
+alone, overwrite mode leaves exactly that text in the program's file; `changed` says whether it differs. -/
+theorem entry_text_is_merge (mg : String → String → Option String) (fs : FS) (pyPath pyi : String) (mode : Mode)
+    (backup : Option String) (o : Out) (py a : String) (hpy : fsGet fs pyPath = some py) (hm : mg py pyi = some a)
+    (h : mergeFilesSrc mg fs pyPath pyi mode backup = .ok o) :
+    o.changed = (a != py) ∧
+    (mode = .print → o.stdout = [.text a] ∧ o.fs = fs) ∧
+    (mode = .diff → o.fs = fs) ∧
+    (mode = .overwrite → fsGet o.fs pyPath = some a ∧ o.stdout = []) := by
+  unfold mergeFilesSrc at h
+  simp only [hpy, hm] at h
+  cases mode with
+  | print => simp only [Except.ok.injEq] at h; subst h; simp
+  | diff => simp only [Except.ok.injEq] at h; subst h; simp
+  | overwrite =>
+    by_cases hc : (a != py) = true
+    · simp only [hc, if_true, Except.ok.injEq] at h
+      subst h
+      simp [fsGet_fsSet_same, hc]
+    · have hc' : (a != py) = false := by simpa using hc
+      simp only [hc', Bool.false_eq_true, if_false, Except.ok.injEq] at h
+      subst h
+      have : a = py := by simpa using hc'
+      simp [hc', this, hpy]
+
+/-- Frame: no file other than the program and — in overwrite mode with a (non-empty) backup extension — its backup is
+created or changed, in any mode. -/
+theorem entry_frame (mg : String → String → Option String) (fs : FS) (pyPath pyi : String) (mode : Mode)
+    (backup : Option String) (o : Out) (h : mergeFilesSrc mg fs pyPath pyi mode backup = .ok o) (x : String)
+    (hx : x ≠ pyPath) (hb : ∀ b, truthy backup = some b → x ≠ backupPath pyPath b) :
+    fsGet o.fs x = fsGet fs x := by
+  unfold mergeFilesSrc at h
+  cases hpy : fsGet fs pyPath with
+  | none => simp [hpy] at h
+  | some py =>
+    cases hm : mg py pyi with
+    | none => simp [hpy, hm] at h
+    | some a =>
+      simp only [hpy, hm] at h
+      cases mode with
+      | print => simp only [Except.ok.injEq] at h; subst h; rfl
+      | diff => simp only [Except.ok.injEq] at h; subst h; rfl
+      | overwrite =>
+        by_cases hc : (a != py) = true
+        · simp only [hc, if_true, Except.ok.injEq] at h
+          subst h
+          simp only
+          rw [fsGet_fsSet_other _ _ _ _ hx]
+          cases htb : truthy backup with
+          | none => rfl
+          | some b => exact fsGet_fsSet_other _ _ _ _ (hb b htb)
+        · have hc' : (a != py) = false := by simpa using hc
+          simp only [hc', Bool.false_eq_true, if_false, Except.ok.injEq] at h
+          subst h; rfl
+
+/-- The backup holds the original text: in overwrite mode, when the merge changed something and a non-empty backup
+extension was given, `<file>.<ext>` contains what the program's file contained before. -/
+theorem entry_backup_original (mg : String → String → Option String) (fs : FS) (pyPath pyi : String)
+    (backup : Option String) (b : String) (o : Out) (py : String) (hpy : fsGet fs pyPath = some py)
+    (hb : truthy backup = some b) (h : mergeFilesSrc mg fs pyPath pyi .overwrite backup = .ok o)
+    (hc : o.changed = true) : fsGet o.fs (backupPath pyPath b) = some py := by
+  unfold mergeFilesSrc at h
+  cases hm : mg py pyi with
+  | none => simp [hpy, hm] at h
+  | some a =>
+    simp only [hpy, hm] at h
+    by_cases hca : (a != py) = true
+    · simp only [hca, if_true, Except.ok.injEq, hb] at h
+      subst h
+      simp only
+      rw [fsGet_fsSet_other _ _ _ _ (backupPath_ne pyPath b), fsGet_fsSet_same]
+    · have hc' : (a != py) = false := by simpa using hca
+      simp only [hc', Bool.false_eq_true, if_false, Except.ok.injEq] at h
+      subst h
+      simp [hc'] at hc
+
+/-- The command line: `--diff` ↦ diff, `-i` ↦ overwrite, neither ↦ print; a backup extension without `-i` is a usage
+error, so nothing is ever written outside overwrite mode. -/
+theorem main_nondestructive (mg : String → String → Option String) (fs : FS) (diffFlag inPlace : Bool)
+    (backup : Option String) (pyPath pyiPath : String) (o : Out)
+    (h : Entry.main mg fs diffFlag inPlace backup pyPath pyiPath = .ok o) (hi : inPlace = false) : o.fs = fs := by
+  subst hi
+  unfold Entry.main modeOfArgs at h
+  cases hd : diffFlag <;> cases htb : (truthy backup).isSome <;> simp [hd, htb] at h
+  all_goals
+    unfold mergeFiles mergeFilesSrc at h
+    cases hp : fsGet fs pyiPath <;> simp only [hp] at h <;> try (simp at h; done)
+    cases hpy : fsGet fs pyPath <;> simp only [hpy] at h <;> try (simp at h; done)
+    rename_i pyi py
+    cases hm : mg py pyi <;> simp only [hm] at h <;> try (simp at h; done)
+    simp only [Except.ok.injEq] at h
+    subst h; rfl
+
+/-- non-vacuity: overwrite with backup on a two-file disk -/
+example : (mergeFilesSrc (fun py pyi => some (py ++ pyi)) [("m.py", "P"), ("m.pyi", "S")] "m.py" "S" .overwrite
+    (some "orig")).toOption.map (fun o => (o.fs, o.changed)) =
+    some ([("m.py", "PS"), ("m.pyi", "S"), ("m.py.orig", "P")], true) := by decide
+example : (modeOfArgs false false (some "orig")).toOption = none ∧
+    (modeOfArgs false true (some "")).toOption = some (.overwrite, none) := by decide
+
+end entry
 
 end PytypeModel.Props.C20
